@@ -319,6 +319,11 @@ fn storage_entries(dbg: &str) -> Vec<String> {
 }
 
 pub fn check_op_shape(gi: &GInst, shape_id: &str, inst: &Inst, unsupported: &[&str]) -> (Vec<Viol>, &'static str) {
+    check_op_shape_gen(gi, shape_id, inst, unsupported, 0)
+}
+
+/// the same with a given generator word in the module header (the lifted operation must not depend on who produced the module)
+pub fn check_op_shape_gen(gi: &GInst, shape_id: &str, inst: &Inst, unsupported: &[&str], generator: u32) -> (Vec<Viol>, &'static str) {
     let mut i = inst.clone();
     i.rtype = i.rtype.map(|_| TYPE_BASE + 1);
     i.rid = Some(600);
@@ -331,7 +336,7 @@ pub fn check_op_shape(gi: &GInst, shape_id: &str, inst: &Inst, unsupported: &[&s
     insts.push(i.clone());
     insts.push(Inst::new("Return", None, None, vec![]));
     insts.push(Inst::new("FunctionEnd", None, None, vec![]));
-    let mut words = model::header(0x0001_0500, 0, 1000);
+    let mut words = model::header(0x0001_0500, generator, 1000);
     for x in &insts {
         words.extend(enc(x));
     }
@@ -710,7 +715,30 @@ pub fn run(tier: Tier) -> Run {
         }
         work.push((gi, s.id, s.inst));
     }
-    let res: Vec<(Vec<Viol>, &'static str)> = work.par_iter().map(|(gi, id, i)| check_op_shape(gi, id, i, &unsupported)).collect();
+    let mut res: Vec<(Vec<Viol>, &'static str)> = work.par_iter().map(|(gi, id, i)| check_op_shape(gi, id, i, &unsupported)).collect();
+    // the minimal shape of every liftable opcode under every generator word: registered tool ids 0..=45 and two
+    // unregistered ones x tool versions on both sides of small numbers (a fix-up keyed on the producer is seen)
+    {
+        let gens: Vec<u32> = (0u32..=45).chain([0x7FFF, 0xFFFF]).flat_map(|t| [0u32, 1, 7, 8, 0xFFFF].into_iter().map(move |v| (t << 16) | v)).collect();
+        let mins: Vec<(&GInst, Inst)> = g.insts.iter().filter(|gi| gi.has_rid() && class_of(&gi.name) == Class::Block && gi.name != "Phi" && !unsupported.contains(&gi.name.as_str())).map(|gi| (gi, universe::minimal(gi))).collect();
+        let extra: Vec<(Vec<Viol>, &'static str)> = mins
+            .par_iter()
+            .map(|(gi, i)| {
+                let mut out: Vec<Viol> = vec![];
+                let mut label = "lifted";
+                for gw in &gens {
+                    let (v, l) = check_op_shape_gen(gi, &format!("{}:min:generator={:#x}", gi.name, gw), i, &unsupported, *gw);
+                    if !v.is_empty() && out.is_empty() {
+                        out = v.into_iter().map(|mut x| { x.key = format!("{}:generator", x.key); x }).collect();
+                        label = l;
+                    }
+                }
+                (out, label)
+            })
+            .collect();
+        run.outcome("generator_words_x_opcodes", (gens.len() * mins.len()) as u64);
+        res.extend(extra);
+    }
     let mut n = 0u64;
     let mut lifted = 0u64;
     for (v, o) in res {
@@ -769,6 +797,78 @@ pub fn run(tier: Tier) -> Run {
             specs.push(ModSpec { caps: caps.clone(), types: vec![], consts: fi % 5, funcs: vec![f.clone(), func_shapes[(fi * 7 + 3) % func_shapes.len()].clone()], control: 1 });
             // two functions behind a declared function type whose return type is not the second function's result type
             specs.push(ModSpec { caps: caps.clone(), types: vec!["float", "function"], consts: fi % 3, funcs: vec![func_shapes[(fi * 5 + 1) % func_shapes.len()].clone(), f.clone()], control: 2 });
+        }
+    }
+    // ---- every capability x every addressing model x every memory model in front of one fixed body with an unsigned, a
+    //      signed and a float constant and one operation: what is lifted from the body must not depend on the
+    //      module-level declarations (and those are carried over as they are)
+    {
+        let caps: Vec<(String, u32)> = g.enums["Capability"].variants.clone();
+        let ams: Vec<(String, u32)> = g.enums["AddressingModel"].variants.clone();
+        let mms: Vec<(String, u32)> = g.enums["MemoryModel"].variants.clone();
+        let mut work: Vec<(u32, (String, u32), (String, u32))> = vec![];
+        for c in &caps {
+            for a in &ams {
+                for m in &mms {
+                    work.push((c.1, a.clone(), m.clone()));
+                }
+            }
+        }
+        let vs: Vec<Option<Viol>> = work
+            .par_iter()
+            .map(|(c, a, m)| {
+                let insts = vec![
+                    Inst::new("Capability", None, None, vec![Arg::Enum("Capability", *c)]),
+                    Inst::new("MemoryModel", None, None, vec![Arg::Enum("AddressingModel", a.1), Arg::Enum("MemoryModel", m.1)]),
+                    Inst::new("TypeVoid", None, Some(10), vec![]),
+                    Inst::new("TypeInt", None, Some(11), vec![Arg::Lit32(32), Arg::Lit32(0)]),
+                    Inst::new("TypeInt", None, Some(12), vec![Arg::Lit32(32), Arg::Lit32(1)]),
+                    Inst::new("TypeFloat", None, Some(13), vec![Arg::Lit32(32)]),
+                    Inst::new("Constant", Some(11), Some(20), vec![Arg::Lit32(0xFFFF_FFF0)]),
+                    Inst::new("Constant", Some(12), Some(21), vec![Arg::Lit32(0xFFFF_FFF0)]),
+                    Inst::new("Constant", Some(13), Some(22), vec![Arg::Lit32(0xBFC0_0000)]),
+                    Inst::new("Function", Some(10), Some(30), vec![Arg::Mask("FunctionControl", 0), Arg::IdRef(10)]),
+                    Inst::new("Label", None, Some(31), vec![]),
+                    Inst::new("FOrdNotEqual", Some(11), Some(32), vec![Arg::IdRef(12), Arg::IdRef(13)]),
+                    Inst::new("Return", None, None, vec![]),
+                    Inst::new("FunctionEnd", None, None, vec![]),
+                ];
+                let mut words = model::header(0x0001_0300, 0, 100);
+                for x in &insts {
+                    words.extend(enc(x));
+                }
+                let rep = json!({"kind": "words", "words": words, "capability": c, "addressing": a.0, "memory_model": m.0});
+                match lift_words(&words) {
+                    Err(p) => Some(viol("C18:module:panic", format!("capability {} / {} / {}: lifting panics: {}", c, a.0, m.0, p), rep)),
+                    Ok(Err(e)) => Some(viol("C18:module:error", format!("capability {} / {} / {}: lifting fails: {}", c, a.0, m.0, e), rep)),
+                    Ok(Ok(md)) => {
+                        let consts: Vec<String> = storage_entries(&format!("{:?}", md.constants)).iter().map(|e| atoms_compact(e)).collect();
+                        let ops: Vec<String> = storage_entries(&format!("{:?}", md.ops)).iter().map(|e| atoms_compact(e)).collect();
+                        let mmd = atoms_compact(&format!("{:?}", md.memory_model));
+                        let capv: Vec<u32> = md.capabilities.iter().map(|x| *x as u32).collect();
+                        let want_consts = vec!["UInt 4294967280".to_string(), "Int -16".to_string(), "Float -1.5".to_string()];
+                        if consts != want_consts {
+                            Some(viol("C18:module:constants", format!("capability {} / {} / {}: constants {:?}, expected {:?}", c, a.0, m.0, consts, want_consts), rep))
+                        } else if ops.len() != 1 || !ops[0].starts_with("FOrdNotEqual") {
+                            Some(viol("C18:module:ops", format!("capability {} / {} / {}: operations {:?}, expected one FOrdNotEqual", c, a.0, m.0, ops), rep))
+                        } else if capv != vec![*c] {
+                            Some(viol("C18:module:capabilities", format!("capability {} lifted as {:?}", c, capv), rep))
+                        } else if mmd != format!("MemoryModel {} {}", a.0, m.0) {
+                            Some(viol("C18:module:memory-model", format!("memory model {} {} lifted as {}", a.0, m.0, mmd), rep))
+                        } else {
+                            None
+                        }
+                    }
+                }
+            })
+            .collect();
+        run.outcome("capability_x_memory_model_modules", work.len() as u64);
+        n += work.len() as u64;
+        let mut seen = std::collections::BTreeSet::new();
+        for v in vs.into_iter().flatten() {
+            if seen.insert(v.key.clone()) {
+                run.add(v);
+            }
         }
     }
     let res: Vec<(Vec<Viol>, &'static str)> = specs.par_iter().map(check_module).collect();
